@@ -242,6 +242,34 @@ func runC15(r *Report) {
 		r.Ob("R-C15-3", hs.Pos(), deleg, "hybrid SetNX returns the tier's SetNX verdict unchanged", "hybrid.Storage.SetNX", "delegates")
 	}
 
+	// a claim attempted in one tier is final: no fall-through to another tier's claim or write
+	for _, name := range []string{"Storage.SetNX", "Storage.SetNXRuntime"} {
+		f := r.need("R-C15-3", hybPkg, name)
+		if f == nil {
+			continue
+		}
+		n := 0
+		for _, c := range Calls(f, false, "SetNX") {
+			if !c.Common().IsInvoke() {
+				continue
+			}
+			n++
+			hits := WalkFrom(nil, c.(ssa.Instruction), func(in ssa.Instruction) int {
+				if ci, ok := in.(ssa.CallInstruction); ok && ci != c {
+					cal := CalleeOf(ci)
+					if cal.Is("SetNX", "Set", "Storage.setRuntime", "Storage.Set") {
+						return Hit
+					}
+				}
+				return Cont
+			}, nil)
+			r.Ob("R-C15-3", CallPos(c), len(hits) == 0, "the verdict (or error) of a tier's SetNX is final: falling through to another tier after a failed or refused claim hands out an identifier that another node may hold", "hybrid."+name, "claim-no-fallthrough")
+		}
+		if n == 0 {
+			r.Fail("R-C15-3", f.Pos(), "no tier SetNX in "+name, "hybrid."+name, "anchor")
+		}
+	}
+
 	// ---- R-C15-4 node id claim / renewal ---------------------------------------------------
 	consts := categoryConsts(r.P)
 	tiersOf := func(name string) map[string]bool {
